@@ -28,7 +28,7 @@ SupportedSession(S) ==
   /\ S.cfg.fdt_cenc = 0 /\ S.cfg.scheme \in {0, 5, 129}
 SupportedBeh(S, e) ==
   /\ Len(e.streams) = 1
-  /\ e.fam \in {"subsets", "dups", "perms", "join", "clean", "writer", "expiry", "corrupt"}
+  /\ e.fam \in {"subsets", "dups", "perms", "join", "clean", "writer", "expiry", "expiry2", "corrupt"}
   \* writer scripts are indexed by creation order, which depends on a hash map when several objects attach at once
   \* a compressed object is written in the chunks of the decompressor: its write callbacks are not compared
   /\ ((\E o \in 1..Len(S.objs) : S.objs[o].cenc # 0) => e.w.write_fail = <<>>)
@@ -37,7 +37,7 @@ SupportedBeh(S, e) ==
 
 WhyBeh(S, e) ==
   IF Len(e.streams) # 1 THEN "several-streams"
-  ELSE IF e.fam \notin {"subsets", "dups", "perms", "join", "clean", "writer", "expiry", "corrupt"} THEN "family-" \o e.fam
+  ELSE IF e.fam \notin {"subsets", "dups", "perms", "join", "clean", "writer", "expiry", "expiry2", "corrupt"} THEN "family-" \o e.fam
   ELSE IF (\E o \in 1..Len(S.objs) : S.objs[o].cenc # 0) /\ e.w.write_fail # <<>> THEN "failing-write-of-a-compressed-object"
   ELSE IF Len(S.objs) > 1 /\ ~(e.w.ans = <<>> /\ e.w.open_fail = <<>> /\ e.w.write_fail = <<>>) THEN "writer-script-with-several-objects"
   ELSE "time-outs-or-filtering"
